@@ -128,6 +128,18 @@ class Seam:
                 self.events.append([seq, event, role, self.mask(rp)])
             if src is not None:
                 self.copy_srcs.append(src)
+                # I4 online: more copies out of the inputs than there are eligible input files -> stop right here
+                roots = self.cfg.get("input_roots")
+                if roots is not None and any(_inside(src, r) or src == r for r in roots):
+                    self.n_input_copies = getattr(self, "n_input_copies", 0) + 1
+                    if self.n_input_copies > self.cfg.get("max_input_copies", 10 ** 9):
+                        self.violations.append({"seq": seq, "event": event, "cls": "I4:unbounded_copy", "path": self.mask(rp)})
+                        self._flush_and_die()
+            if event == "os.mkdir" and self.cfg.get("src_root") and _inside(rp, self.cfg["src_root"]):
+                self.n_src_dirs = getattr(self, "n_src_dirs", 0) + 1
+                if self.n_src_dirs > self.cfg.get("max_src_dirs", 10 ** 9):
+                    self.violations.append({"seq": seq, "event": event, "cls": "I4:unbounded_copy", "path": self.mask(rp)})
+                    self._flush_and_die()
             # ---- containment invariants, checked BEFORE the operation happens
             allowed_extra = any(_inside(rp, a) for a in self.allow) or rp in ("/dev/null",)
             inW = self.W is not None and _inside(rp, self.W) and rp != self.W
